@@ -20,6 +20,8 @@ DECIDED = ('"every interleaving" is decided by confinement, not by exploring sch
            'location that outlives the request is written anywhere in the package except the frozen, reasoned table '
            '(error-template lines by one slice assignment; filter memo at registration) - in particular no module-level '
            'scratch buffers, no class attributes, no incrementally filled caches.')
+DECIDED_MORE = ('Also: stores into the application object / router / routing tree / routes made on the request path (through alias chains from self.<attr>) are shared writes.')
+DECIDED = DECIDED + ' ' + DECIDED_MORE
 NOT_DECIDED = ('user handler code; C-level atomicity of dict/list operations (assumed); equality of each response with the one '
                'served alone is implied by confinement only for framework state, not proved for arbitrary handlers.')
 ASSUMPTIONS = ['builtin container operations are atomic under the GIL', 'threading.local gives each thread its own attributes',
